@@ -27,8 +27,22 @@ fn fresh_deterministic(files: &[(String, String)], qs: &[String]) -> bool {
     d1 == d2
 }
 
+fn class_of_c10(c: &WsCase) -> Value {
+    // the probe (a copy of the last variant of file 0) is one more file of the history
+    let mut c2 = c.clone();
+    let probe = c.files[0].1.last().cloned().unwrap_or_default();
+    c2.files.push(("probe.lua".into(), vec![probe]));
+    class_of(&c2)
+}
+
 fn class_of(c: &WsCase) -> Value {
-    if symbol_shared_across_files(c) { json!("symbol-declared-in-several-files") } else { Value::Null }
+    if class_bound_to_required_table(c) {
+        json!("class-bound-to-required-table")
+    } else if symbol_shared_across_files(c) {
+        json!("symbol-declared-in-several-files")
+    } else {
+        Value::Null
+    }
 }
 
 // ---------------------------------------------------------------- C10
@@ -64,8 +78,20 @@ fn oracle_c10(c: &WsCase, report: &mut Report) -> Vec<String> {
     {
         let probe_name = "probe.lua";
         let text = c.files[0].1.last().cloned().unwrap_or_default();
+        let dbg = std::env::var("VH_DEBUG").is_ok();
+        let before = if dbg { format!("{:#?}", sim.a.compilation.get_db().get_member_index()) } else { String::new() };
         sim.a.update_file_by_uri(&uri_of(probe_name), Some(text));
         sim.a.remove_file_by_uri(&uri_of(probe_name));
+        if dbg {
+            let after = format!("{:#?}", sim.a.compilation.get_db().get_member_index());
+            let b: std::collections::HashSet<&str> = before.lines().collect();
+            let al: Vec<&str> = after.lines().collect();
+            for (i, l) in al.iter().enumerate() {
+                if !b.contains(l) {
+                    eprintln!("MEMBER+ @{i}\n{}", al[i.saturating_sub(14)..(i + 14).min(al.len())].join("\n"));
+                }
+            }
+        }
         let d = dump(&sim.a, &qs);
         let s = sizes(&sim.a);
         report.count("c10_probe_add_remove");
@@ -348,7 +374,7 @@ pub fn run(args: &Args, report: &mut Report) {
             report.distinct_nontrivial += 1;
         }
         if let Some(first) = fails.first() {
-            report.oracle_failure(json!({"input": c.to_json(), "what": first, "all": fails.len(), "more": fails.iter().skip(1).take(4).collect::<Vec<_>>(), "class": class_of(c)}));
+            report.oracle_failure(json!({"input": c.to_json(), "what": first, "all": fails.len(), "more": fails.iter().skip(1).take(4).collect::<Vec<_>>(), "class": if prop == "C10" { class_of_c10(c) } else { class_of(c) }}));
         }
         if report.samples.len() < 2 {
             report.sample(json!({"case": c.to_json()}));
